@@ -214,6 +214,27 @@ def run(ctx):
                 ctx.check(not bad, "PAIR", "C13:PAIR:%s:%s+-1" % (f.npath, fld), "`%s` is incremented around the nested emission and decremented on every path" % fld,
                           "`%s` is incremented and a return is reachable without the matching decrement: the emitter stays in flow mode" % fld, config, ctx.where(f, b))
         ctx.floor("PAIR.pairs", npairs, 12, config)
+        # HINT-RESET: the one-shot layout hints left by the enclosing sequence item / previous sibling are cleared at the start
+        # of every block-map entry, *before* the composite-key branch saves them — otherwise the stale hint is what gets
+        # restored after the key and the entry's value is indented from the dash depth.
+        sk = fx.fn("<ser::MapSer as serde::ser::SerializeMap>::serialize_key")
+        ctx.saw(sk)
+        pairs, _r = find_pairs(sk, fx)
+        nh = 0
+        for b, i, fld, l, dirty0 in pairs:
+            if fld not in ("after_dash_depth", "pending_inline_map"):
+                continue
+            nh += 1
+            resets = []
+            for rb, ri, s_ in sk.stmts():
+                if s_["k"] == "assign" and s_["p"]["pr"] and ser_field(sk, s_["p"]) == fld:
+                    v = sk.sym_rvalue(s_["rv"])
+                    neutral = (v[0] == "const" and v[1] is False) or (v[0] == "aggr" and v[2] == "None")
+                    if neutral and ((rb == b and isinstance(i, int) and ri < i) or (rb != b and sk.dominates(rb, b))):
+                        resets.append(rb)
+            ctx.check(bool(resets), "PAIR", "C13:HINT-RESET:serialize_key:%s" % fld, "`%s` is cleared for the new entry before the composite-key branch saves it" % fld,
+                      "serialize_key saves `%s` around a composite key without having cleared it first: the hint left by the enclosing `- ` item is restored after the key and the entry's value (a block mapping) is indented one level too shallow" % fld, config, ctx.where(sk, b))
+        ctx.floor("PAIR.hint-resets", nh, 2, config)
         # option validation precedes serializer construction
         for name in ("to_fmt_writer_with_options", "to_io_writer_with_options"):
             f = fx.fn(name)
